@@ -218,6 +218,22 @@ func (e *Engine) verifyContract(ct *Contract) (x *Exec, err error) {
 		args = append(args, v)
 		names[p.Name()] = v
 	}
+	// a function literal under contract: its captured variables are arbitrary
+	// (non-nil cells); in specs a captured variable's name denotes its value at entry
+	var fvs []Val
+	for _, fv := range fn.FreeVars {
+		v := freshVal(x.c, "fv_"+fv.Name(), fv.Type())
+		x.wellFormed(v, st0)
+		if len(v.L) == 1 && v.L[0].Sort == SRef {
+			x.c.Assume(Not(Eq(v.L[0], BVLit(0, 32))))
+		}
+		fvs = append(fvs, v)
+		if _, isPtr := fv.Type().Underlying().(*types.Pointer); isPtr {
+			if _, shadow := names[fv.Name()]; !shadow {
+				names[fv.Name()] = x.load(st0, x.toAddr(v), TTrue)
+			}
+		}
+	}
 	for _, fa := range ct.Forall {
 		v := freshVal(x.c, "forall_"+fa.Name, ghostType(fa.Type))
 		names[fa.Name] = v
@@ -248,7 +264,7 @@ func (e *Engine) verifyContract(ct *Contract) (x *Exec, err error) {
 	x.specDepth--
 	x.nReq = len(x.c.Assumes)
 	entry := st0.clone()
-	rets := x.runFunc(fn, args, nil, st0, TTrue, 0, true, env)
+	rets := x.runFunc(fn, args, fvs, st0, TTrue, 0, true, env)
 	var liveReach []Term
 	for ri, r := range rets {
 		if r.panicked {
